@@ -8,6 +8,12 @@ Clauses (the sentences of the property):
 * `value-differs-from-convention`   : the result is `output_transform(inputs, net(input_transform(inputs,
                                       params)), params)` restricted to the output slice;
 * `no-trailing-component-axis`      : the result always has a trailing component axis;
+* `empty-output-for-a-legal-selection` : a slice / index that designates existing components (negative
+                                      indices and bounds count from the end) never yields an empty
+                                      array: the component axis has length ≥ 1;
+* `slice-solution-does-not-select-the-designated-components` : the stored `slice_solution` selects
+                                      exactly the components the user designated (`None` = all, an
+                                      integer = that component kept as an axis, a slice = itself);
 * `valid-call-rejected`             : a scalar or length-one time, the bare network parameters (when no
                                       transform / hyper-network needs `eq_params`) are accepted;
 * `scalar-and-length-one-time-differ`, `bare-and-full-parameters-differ`;
@@ -54,6 +60,7 @@ def checkValue (ref : Except String Vec) (o : Obs) : Option String :=
   | .ok v, .value out shape =>
     if shape.length == 0 then some "no-trailing-component-axis"
     else if shape != [out.length] then some "output-rank"
+    else if out.length == 0 && v.length != 0 then some "empty-output-for-a-legal-selection"
     else if out != v then some "value-differs-from-convention"
     else none
 
@@ -62,6 +69,22 @@ def checkCreate (expected observed : Option String) : Option String :=
   match expected, observed with
   | none, some _ => some "valid-configuration-rejected"
   | _, _ => none
+
+/-- `slice_solution`: applied to an output of `nOut` components, the stored slice selects the
+    components designated by the user's argument -/
+def checkSliceSolution (user : Option OutSlice) (nOut : Nat) (stored : Option Int × Option Int) :
+    Option String :=
+  let comps := List.range nOut
+  let designated : Option (List Nat) :=
+    match user with
+    | none => some comps
+    | some (.index i) => (pyIndex comps i).map (fun c => [c])
+    | some (.range a b) => some (pySlice comps a b)
+  match designated with
+  | none => none
+  | some want =>
+    if pySlice comps stored.1 stored.2 == want then none
+    else some "slice-solution-does-not-select-the-designated-components"
 
 def firstSome : List (Option String) → Option String
   | [] => none
